@@ -199,7 +199,8 @@ class Inc:
         guards = []
         for (dr, nm) in sorted(placed):
             tag = 'M_%s_%s' % (dr.replace('.', 'top'), nm[3])
-            style = ch.choice(['plain', 'plain', 'guard', 'guard', 'once', 'guard_tail', 'guard_else', 'guard_text_before', 'guard_other_macro', 'guard_nested'])
+            style = ch.choice(['plain', 'plain', 'guard', 'guard', 'once', 'guard_tail', 'guard_else', 'guard_text_before', 'guard_other_macro', 'guard_nested',
+                               'guard_elif', 'guard_elif_defined', 'guard_if_not_defined', 'guard_then_ifdef', 'guard_comment_after'])
             inner = [tag + ';']
             if ch.bool():
                 other = ch.choice(NAMES)
@@ -225,6 +226,17 @@ class Inc:
                 body = ['#ifndef %s' % g, '#define %s' % g] + inner + ['#endif', tag + '_tail;', '#if 0', '#endif']
             elif style == 'guard_else':
                 body = ['#ifndef %s' % g, '#define %s' % g] + inner + ['#else', tag + '_again;', '#endif']
+            elif style == 'guard_elif':
+                # the guard's own #ifndef continues with #elif: the second inclusion (guard defined) selects the #elif group
+                body = ['#ifndef %s' % g, '#define %s' % g] + inner + ['#elif %s' % ch.choice(['1', '%s + 1' % g, 'defined %s' % g, '!0']), tag + '_again;', '#endif']
+            elif style == 'guard_elif_defined':
+                body = ['#ifndef %s' % g, '#define %s' % g] + inner + ['#elif !defined(%s)' % g, tag + '_never;', '#elif defined(%s)' % g, tag + '_again;', '#else', tag + '_never2;', '#endif']
+            elif style == 'guard_if_not_defined':
+                body = ['#if !defined(%s)' % g, '#define %s' % g] + inner + ['#endif']
+            elif style == 'guard_then_ifdef':
+                body = ['#ifndef %s' % g, '#define %s' % g] + inner + ['#endif', '#ifdef %s' % g, tag + '_tail;', '#endif']
+            elif style == 'guard_comment_after':
+                body = ['/* c */', '', '#ifndef %s /* c */' % g, '#define %s' % g] + inner + ['#endif /* %s */' % g, '// end', '']
             elif style == 'guard_text_before':
                 body = [tag + '_pre;', '#ifndef %s' % g, '#define %s' % g] + inner + ['#endif']
             elif style == 'guard_other_macro':
@@ -321,7 +333,7 @@ class C10:
             'expected value; plain `#if E`, `(E) == V`, `(E) != V`), `defined` in 5 spellings, undefined identifiers, object-like macros holding sub-expressions, trailing tokens/comments on '
             '#else/#endif/#ifdef lines, skipped groups filled with invalid directives, #error, missing includes, never-evaluated #elif and division by zero; '
             'every group emits a marker and the model predicts the marker sequence; (b) include graphs over 7 directories (includer dir, 3 -I, 2 -idirafter, sub) with same-named '
-            'headers, 10 guard shapes incl. #pragma once, nested "..."/<...>/macro-expanded includes, #include_next chains over 2-3 directories (also after another #include and from a copy next to the includer), guards #undef-ed between inclusions, -D/-U histories, -include, '
+            'headers, 15 guard shapes incl. #pragma once and guards whose #ifndef continues with #elif, nested "..."/<...>/macro-expanded includes, #include_next chains over 2-3 directories (also after another #include and from a copy next to the includer), guards #undef-ed between inclusions, -D/-U histories, -include, '
             'option order permuted. Oracle: marker sequence of chibicc -E == gcc == clang (== model for (a)). non-trivial = nesting>=2, boundary-valued expression, >=2 candidate '
             'directories for a name or a header included twice; distinct by program text / file tree hash.')
     assumptions = ['gcc/clang preprocessors run with the equivalent search path define plain textual inclusion semantics',
